@@ -22,7 +22,7 @@ OpsBy(t) == Cardinality({j \in 1..Len(hist) : hist[j].h = t /\ hist[j].op # "New
 (* distinguishable values: 100 * thread + sequence number *)
 ValFor(t) == 100 * t + OpsBy(t) + 1
 
-LInit == Init /\ kind = "shared" /\ val = 0 /\ phase = "setup"
+LInit == Init /\ kind \in Kinds /\ val = 0 /\ phase = "setup"     \* Kinds = {"unique"}: thread 1 has the Observable, the others subscribe
 
 Setup ==
     /\ phase = "setup" /\ Len(hist) <= SetupMax
